@@ -257,7 +257,7 @@ def corrupt_clause(ctx, quick):
 def run(ctx):
     quick = ctx.tier == 'quick'
     serialize_sub(ctx)
-    with cf.ThreadPoolExecutor(max_workers=4 if quick else 10) as ex:
+    with cf.ThreadPoolExecutor(max_workers=6 if quick else 12) as ex:
         fb = ex.submit(vlib.build_harness, ctx)
         # 1. the design model: every operation x every response sequence of the class alphabets x page sizes
         fm = ex.submit(model, ctx, 'OciClientFaultsMC.cfg' if quick else 'OciClientFaultsMC_thorough.cfg',
@@ -269,10 +269,16 @@ def run(ctx):
         fu = ex.submit(export, ctx, 'OciClientFaultsMC_export_uperr.cfg',
                        'upload operations (POST, PATCH, PUT, status GET, mount) x well-formed OCI error bodies of all 15 standard codes x {status of the code, 500}, '
                        'each followed by one more call on the writer')
+        fs = ex.submit(export, ctx, 'OciClientFaultsMC_export_status.cfg',
+                       'every request of every operation x every status of 1xx-5xx (100-103, 2xx, 300-308 with and without Location, 400-418, 421-431, 451, 500-511, '
+                       '401 with WWW-Authenticate), request bodies not rewindable (PushBlob from a plain io.Reader, a Write overflowing a non-empty chunk)')
+        fr = ex.submit(export, ctx, 'OciClientFaultsMC_export_relist.cfg',
+                       'listings whose consecutive pages repeat items (the same page again, the last item first, backwards, the start argument first), '
+                       'page sizes 1 and 2, with and without Link')
         if quick:
-            fe = [fu, ex.submit(export, ctx, 'OciClientFaultsMC_export_quick.cfg', 'all operation families, thinned alphabets')]
+            fe = [fu, fs, fr, ex.submit(export, ctx, 'OciClientFaultsMC_export_quick.cfg', 'all operation families, thinned alphabets')]
         else:
-            fe = [fu] + [ex.submit(export, ctx, 'OciClientFaultsMC_x%s.cfg' % f, 'family %s, alphabets thinned after the first response' % f) for f in FAMILIES]
+            fe = [fu, fs, fr] + [ex.submit(export, ctx, 'OciClientFaultsMC_x%s.cfg' % f, 'family %s, alphabets thinned after the first response' % f) for f in FAMILIES]
         fc = []
         if not quick:
             fc = [ex.submit(canary_model, ctx, 'OciClientFaultsMC_f4.cfg', 'NoPanicState',
